@@ -137,9 +137,13 @@ class Check(object):
 
 def _match(k, key):
     kk = k.get("key", "")
-    if kk.endswith("*"):
-        return key.startswith(kk[:-1])
-    return kk == key
+    for one in [kk] + list(k.get("also", [])):
+        if one.endswith("*"):
+            if key.startswith(one[:-1]):
+                return True
+        elif one == key:
+            return True
+    return False
 
 
 def main_wrapper(fn):
